@@ -13,7 +13,7 @@ import (
 // their own race annotations). The only happens-before edges ThreadSanitizer
 // sees are the ones the code under test creates itself.
 
-// operations (must match shim/vsync)
+// operations (must match _shim/vsync)
 const (
 	OpLockAnnounce = iota + 1
 	OpLockAcquire
